@@ -222,7 +222,7 @@ def coq_props(prop_id, timeout=900):
             cur = []
             blocks.append(cur)
         elif cur is not None and line.strip() and not line.startswith('COQ') and not line.startswith('make'):
-            m = re.match(r'^(\S+)\s*:', line)
+            m = re.match(r"^([A-Za-z_][\w.']*)\s*(:|$)", line)
             if m:
                 cur.append(m.group(1))
     bad = []
